@@ -5,7 +5,7 @@
    (parametrised by what holds of its field types), then induction on serde's recursion depth. *)
 From TsRs Require Import Base.Str Base.Outcome Gen.Tables Model.Case Model.TsAst Model.Rust Model.Docs Model.Gen
   Spec.TsFree Spec.TsSem Spec.Serde Spec.RtyInd Proofs.Gen_base_proofs Proofs.Sem_base_proofs Proofs.Sem_lib_proofs Proofs.Sem_alt_proofs Model.Path Model.Merge Model.GenExport.
-From Coq Require Import List Lia Bool ZArith.
+From Coq Require Import List Lia Bool ZArith Sorting.Permutation.
 Import ListNotations.
 Local Open Scope nat_scope.
 
@@ -93,11 +93,38 @@ Definition struct_content (tg : str) (t : rty) : Prop :=
   | RNamed id _ =>
       match lookup R id with
       | Some (DStruct a (SNamed (f0 :: fs))) =>
-          c_tag a = None /\ ~ In tg (map (Gen.field_key (c_rename_all a)) (live (f0 :: fs)))
+          c_tag a = None /\ ~ In tg (map (Gen.field_key (c_rename_all a)) (live (f0 :: fs))) /\
+          Forall (fun f => f_flatten f = false) (f0 :: fs)
       | _ => False
       end
   | _ => False
   end.
+
+(* a struct that can be flattened into another definition: named fields (at least one), no tag of its own, no flattened field
+   of its own (one level of flattening) *)
+Definition flat_struct (t : rty) : Prop :=
+  match t with
+  | RNamed id _ =>
+      match lookup R id with
+      | Some (DStruct a (SNamed (f0 :: fs))) => c_tag a = None /\ Forall (fun f => f_flatten f = false) (f0 :: fs)
+      | _ => False
+      end
+  | _ => False
+  end.
+Definition flat_keys (t : rty) : list str :=
+  match t with
+  | RNamed id _ =>
+      match lookup R id with
+      | Some (DStruct a (SNamed fs)) => map (Gen.field_key (c_rename_all a)) (live fs)
+      | _ => []
+      end
+  | _ => []
+  end.
+(* a flattened field: of such a struct, in a definition without type parameters *)
+Definition flat_field (n : nat) (f : field) : Prop :=
+  f_flatten f = true /\ f_type f = None /\ f_serde_ty f = f_ty f /\ pmono n (f_ty f) = true /\ n = 0%nat /\
+  f_optional f = NotOptional /\ f_skip_none f = false /\ flat_struct (f_ty f).
+Definition nfield (n : nat) (opt : optional) (f : field) : Prop := plain_field n opt f \/ flat_field n f.
 
 Lemma rsubst_nil : forall t, src_ty 0 t = true -> rsubst [] t = t.
 
@@ -175,6 +202,14 @@ Hypothesis Hsto : forall u v j, st (ROption u) v = Some j -> (v = VNone /\ j = J
 Hypothesis Halt : forall tg t v l a, struct_content R tg t -> pmono R n t = true ->
   st (rsubst sargs t) v = Some (JObj l) -> name_of R (rsubst gargs t) = Ok a ->
   exists ks, ev_alt E (tsubst sn sf a) ks l /\ ~ In tg ks.
+
+(* ... and a struct flattened into the definition is written as one exact object over its own keys *)
+Hypothesis Hflat : forall t v l a, flat_struct R t -> pmono R n t = true -> n = 0%nat ->
+  st (rsubst sargs t) v = Some (JObj l) -> flt (rsubst gargs t) = Ok a ->
+  ev_alt E (tsubst sn sf a) (flat_keys R t) l /\ ev a (JObj l) /\ NoDup (map fst l).
+
+Notation flat_field := (flat_field R n).
+Notation nfield := (nfield R n).
 
 Lemma is_flat_plain opt f : plain_field opt f -> is_flat f = false.
 Proof. intros (Hf & _). unfold is_flat. rewrite Hf. reflexivity. Qed.
@@ -267,6 +302,88 @@ Proof.
         -- cbn [map]. f_equal; [exact Hk | exact C].
 Qed.
 
+Lemma is_flat_flat f : flat_field f -> is_flat f = true.
+Proof. intros (Hf & Hty0 & _). unfold is_flat. rewrite Hf, Hty0. reflexivity. Qed.
+
+Lemma field_ty_flat opt f : flat_field f -> field_ty gargs opt f = rsubst gargs (f_ty f).
+Proof.
+  intros (_ & _ & _ & _ & _ & Hfo & _ & Hfs). unfold field_ty, field_optional. rewrite Hfo.
+  destruct (f_ty f); try contradiction. destruct opt as [|[|]]; reflexivity.
+Qed.
+
+(* named fields, some of them flattened: the entries are, up to order, the entries of the own fields followed by the entries
+   of each flattened struct *)
+Lemma named_rel ra opt : forall fs vs entries props flats,
+  Forall (nfield opt) fs ->
+  named_entries st sargs ra fs vs = Some entries ->
+  omap_list (prop_of is_alnum is_numeric R inl gargs ra opt) (filter (fun fl => negb (is_flat fl)) (live fs)) = Ok props ->
+  omap_list (fun fl => flt (field_ty gargs opt fl)) (filter is_flat (live fs)) = Ok flats ->
+  exists own kes,
+    Permutation entries (own ++ concat (map snd kes)) /\
+    (own = [] -> entries = concat (map snd kes)) /\
+    (forall k j, In (k, j) own -> exists p t, In (p, t) props /\ p_key p = k /\ ev t j) /\
+    (forall p t, In (p, t) props -> p_optional p = false -> exists j, In (p_key p, j) own) /\
+    map (fun p => p_key (fst p)) props = map (Gen.field_key ra) (filter (fun fl => negb (is_flat fl)) (live fs)) /\
+    (NoDup (map (Gen.field_key ra) (filter (fun fl => negb (is_flat fl)) (live fs))) -> NoDup (map fst own)) /\
+    Forall2 (fun x ke => ev_alt E (tsubst sn sf x) (fst ke) (snd ke) /\ ev x (JObj (snd ke)) /\ NoDup (map fst (snd ke))) flats kes /\
+    map fst kes = map (fun f => flat_keys R (f_ty f)) (filter is_flat (live fs)).
+Proof.
+  induction fs as [|f fs IH]; intros vs entries props flats Hpl He Hp Hfl.
+  - destruct vs; [|discriminate]. cbn in He, Hp, Hfl. inversion He; inversion Hp; inversion Hfl; subst.
+    exists [], []. cbn. repeat split; try (intros; contradiction); try constructor; try reflexivity.
+  - inversion Hpl as [|? ? Hf Hfs]; subst. destruct vs as [|v vs]; [discriminate|]. cbn [named_entries] in He.
+    destruct (named_entries st sargs ra fs vs) as [rest|] eqn:Hrest; [|discriminate].
+    unfold live in *. cbn [filter] in Hp, Hfl |- *. destruct (f_skip f) eqn:Hskip; cbn [negb] in Hp, Hfl |- *.
+    + inversion He; subst. eapply IH; eassumption.
+    + destruct Hf as [Hf|Hf].
+      * (* an own field *)
+        pose proof (is_flat_plain opt f Hf) as Hnf. cbn [filter] in Hp, Hfl |- *. rewrite Hnf in Hp, Hfl |- *. cbn [negb filter] in Hp, Hfl |- *.
+        pose proof Hf as (Hfl0 & Hty0 & Hsty & Hmono & Hinl0 & Hos).
+        cbn [omap_list] in Hp. apply bind_ok in Hp as (p & Hpp & Hp). apply bind_ok in Hp as (ps & Hps & Hp). inversion Hp; subst props; clear Hp.
+        destruct (field_rel ra opt f v p Hf Hpp) as (Hk & Habs & Hpres).
+        destruct (IH vs rest ps flats Hfs Hrest Hps Hfl) as (own & kes & P & Pe & A & B & C & N & D & K).
+        destruct (f_skip_none f && match v with VNone => true | _ => false end) eqn:Hnn.
+        -- inversion He; subst entries; clear He. exists own, kes. repeat split; try assumption.
+           ++ intros k j' Hin'. destruct (A k j' Hin') as (p0 & t & Hp' & Hk' & Hm). exists p0, t. split; [right; exact Hp'|]. split; assumption.
+           ++ intros p0 t [Heq|Hin'] Ho; [|apply (B p0 t Hin' Ho)].
+              destruct p as [ph pt]. inversion Heq; subst. cbn [fst] in Habs. rewrite (Habs eq_refl) in Ho. discriminate.
+           ++ cbn [map]. f_equal; [exact Hk | exact C].
+           ++ intros Hnd. cbn [map] in Hnd. inversion Hnd; subst. apply N. assumption.
+        -- rewrite Hsty, Hfl0 in He.
+           destruct (st (rsubst sargs (f_ty f)) v) as [j|] eqn:Hj; [|discriminate]. inversion He; subst entries; clear He.
+           exists ((Gen.field_key ra f, j) :: own), kes. repeat split; try assumption.
+           ++ cbn [app]. apply perm_skip. exact P.
+           ++ discriminate.
+           ++ intros k j' [Heq|Hin'].
+              ** inversion Heq; subst. exists (fst p), (snd p). split; [left; apply surjective_pairing|]. split; [exact Hk|].
+                 apply (Hpres eq_refl). reflexivity.
+              ** destruct (A k j' Hin') as (p0 & t & Hp' & Hk' & Hm). exists p0, t. split; [right; exact Hp'|]. split; assumption.
+           ++ intros p0 t [Heq|Hin'] Ho.
+              ** destruct p as [ph pt]. inversion Heq; subst. exists j. left. cbn [fst] in Hk. rewrite Hk. reflexivity.
+              ** destruct (B p0 t Hin' Ho) as [j' Hj']. exists j'. right. exact Hj'.
+           ++ cbn [map]. f_equal; [exact Hk | exact C].
+           ++ intros Hnd. cbn [map] in Hnd |- *. inversion Hnd as [|? ? Hnin Hnd']; subst. constructor; [|apply N; exact Hnd'].
+              intros Hin. apply Hnin. apply in_map_iff in Hin as ([k0 j0] & Hk0 & Hin0). cbn [fst] in Hk0. subst k0.
+              destruct (A _ _ Hin0) as (p0 & t0 & Hp0 & Hkp0 & _). rewrite <- C. rewrite <- Hkp0.
+              change (p_key p0) with ((fun q : phead * tsty => p_key (fst q)) (p0, t0)). apply in_map. exact Hp0.
+      * (* a flattened struct *)
+        pose proof (is_flat_flat f Hf) as Hisf. cbn [filter] in Hp, Hfl |- *. rewrite Hisf in Hp, Hfl |- *. cbn [negb filter] in Hp, Hfl |- *.
+        pose proof Hf as (Hfl0 & Hty0 & Hsty & Hmono & Hn0 & Hfo & Hsn & Hfs0).
+        rewrite Hsn in He. cbn [andb] in He. rewrite Hsty, Hfl0 in He.
+        destruct (st (rsubst sargs (f_ty f)) v) as [j|] eqn:Hj; [|discriminate].
+        destruct j as [| | | | | |l]; cbn [obj_entries option_map] in He; try discriminate. inversion He; subst entries; clear He.
+        cbn [omap_list] in Hfl. apply bind_ok in Hfl as (x & Hx & Hfl). apply bind_ok in Hfl as (xs & Hxs & Hfl). inversion Hfl; subst flats; clear Hfl.
+        rewrite (field_ty_flat opt f Hf) in Hx.
+        destruct (Hflat (f_ty f) v l x Hfs0 Hmono Hn0 Hj Hx) as (Hal & Hev & Hndl).
+        destruct (IH vs rest props xs Hfs Hrest Hp Hxs) as (own & kes & P & Pe & A & B & C & N & D & K).
+        exists own, ((flat_keys R (f_ty f), l) :: kes). cbn [map fst snd concat]. repeat split; try assumption.
+        -- apply (Permutation_trans (l' := l ++ own ++ concat (map snd kes))); [apply Permutation_app_head; exact P|].
+           rewrite !app_assoc. apply Permutation_app_tail. apply Permutation_app_comm.
+        -- intros Ho. rewrite (Pe Ho). reflexivity.
+        -- constructor; [repeat split; assumption | exact D].
+        -- f_equal. exact K.
+Qed.
+
 (* tuple items against the generated element types: `optional` is not looked at in a tuple *)
 Definition plain_tfield (f : field) : Prop := plain_field NotOptional f /\ f_optional f = NotOptional.
 
@@ -314,12 +431,14 @@ Definition plain_shape (opt : optional) (s : shape) : Prop :=
   | SUnit => True
   | STuple [f] => plain_tfield f /\ f_skip f = false        (* a skipped newtype field is a known class *)
   | STuple fs => Forall plain_tfield fs
-  | SNamed fs => Forall (plain_field opt) fs
+  | SNamed fs => Forall (nfield opt) fs
   end.
 
+(* the keys of a named shape: extra (tag) keys, the keys of the own fields, the keys of the flattened structs *)
 Definition keys_distinct (ra : option rule) (extra : list str) (s : shape) : Prop :=
   match s with
-  | SNamed fs => NoDup (extra ++ map (Gen.field_key ra) (live fs))
+  | SNamed fs => NoDup (extra ++ map (Gen.field_key ra) (filter (fun fl => negb (is_flat fl)) (live fs)) ++
+                        concat (map (fun f => flat_keys R (f_ty f)) (filter is_flat (live fs))))
   | _ => True
   end.
 
@@ -347,6 +466,156 @@ Proof.
     + destruct (B p t Hin Hopt) as [j Hj]. exists j. apply in_or_app. right. exact Hj.
 Qed.
 
+(* ---- the general case: some of the fields are flattened structs --------------------------------- *)
+Lemma obj_of_facts (xprops : list (phead * tsty)) (xentries : list (str * json)) props own keys :
+  (forall k j, In (k, j) own -> exists p t, In (p, t) props /\ p_key p = k /\ ev t j) ->
+  (forall p t, In (p, t) props -> p_optional p = false -> exists j, In (p_key p, j) own) ->
+  map (fun p => p_key (fst p)) props = keys ->
+  NoDup (map (fun p => p_key (fst p)) xprops ++ keys) ->
+  Forall2 (fun p e => p_key (fst p) = fst e /\ p_optional (fst p) = false /\ ev (snd p) (snd e)) xprops xentries ->
+  ev (TObj OStruct (xprops ++ props)) (JObj (xentries ++ own)).
+Proof.
+  intros A B C Hnd Hx. apply evs_obj.
+  - rewrite map_app, C. exact Hnd.
+  - intros k j Hin. apply in_app_or in Hin as [Hin|Hin].
+    + clear -Hx Hin. induction Hx as [|p e xp xe (Hk & Ho & Hm) _ IH]; [destruct Hin|].
+      destruct Hin as [Heq|Hin]; [|destruct (IH Hin) as (p' & t' & Hp' & Hr); exists p', t'; split; [right; exact Hp'|exact Hr]].
+      subst e. destruct p as [ph ty]. exists ph, ty. cbn in *. split; [left; reflexivity|]. split; assumption.
+    + destruct (A k j Hin) as (p & t & Hp' & Hk & Hm). exists p, t. split; [apply in_or_app; right; exact Hp'|]. split; assumption.
+  - intros p t Hin Hopt. apply in_app_or in Hin as [Hin|Hin].
+    + clear -Hx Hin. induction Hx as [|p0 e xp xe (Hk & Ho & Hm) _ IH]; [destruct Hin|].
+      destruct Hin as [Heq|Hin]; [|destruct (IH Hin) as [j Hj]; exists j; right; exact Hj].
+      subst p0. cbn in Hk. exists (snd e). left. rewrite Hk. destruct e; reflexivity.
+    + destruct (B p t Hin Hopt) as [j Hj]. exists j. apply in_or_app. right. exact Hj.
+Qed.
+
+Lemma nodup_app_intro {A} (a b : list A) : NoDup a -> NoDup b -> (forall x, In x a -> ~ In x b) -> NoDup (a ++ b).
+Proof.
+  induction a as [|x a IH]; cbn; intros Ha Hb Hd; [exact Hb|]. inversion Ha as [|? ? Hnin Ha']; subst. constructor.
+  - intros Hin. apply in_app_or in Hin as [Hin|Hin]; [contradiction | apply (Hd x (or_introl eq_refl) Hin)].
+  - apply IH; [exact Ha' | exact Hb | intros y Hy; apply Hd; right; exact Hy].
+Qed.
+
+Lemma nodup_app_l {A} (a b : list A) : NoDup (a ++ b) -> NoDup a.
+Proof. induction a as [|x a IH]; cbn; intros H; [constructor|]. inversion H as [|? ? Hnin H']; subst. constructor; [intros Hin; apply Hnin; apply in_or_app; left; exact Hin | apply IH; exact H']. Qed.
+Lemma nodup_app_r {A} (a b : list A) : NoDup (a ++ b) -> NoDup b.
+Proof. induction a as [|x a IH]; cbn; intros H; [exact H|]. inversion H; subst. apply IH. assumption. Qed.
+Lemma nodup_app_dis {A} (a b : list A) : NoDup (a ++ b) -> forall x, In x a -> ~ In x b.
+Proof.
+  induction a as [|y a IH]; cbn; intros H x Hx; [contradiction|]. inversion H as [|? ? Hnin H']; subst. destruct Hx as [->|Hx].
+  - intros Hin. apply Hnin. apply in_or_app. right. exact Hin.
+  - apply IH; assumption.
+Qed.
+
+(* lists of keys that stay inside pairwise disjoint regions *)
+Lemma concat_incl (regs keyss : list (list str)) :
+  Forall2 (fun reg ks => NoDup ks /\ incl ks reg) regs keyss -> incl (concat keyss) (concat regs).
+Proof.
+  induction 1 as [|r k rs kss [_ Hi] _ IH]; cbn [concat]; intros x Hin; [exact Hin|].
+  apply in_app_or in Hin as [Hin|Hin]; apply in_or_app; [left; apply Hi; exact Hin | right; apply IH; exact Hin].
+Qed.
+
+Lemma nodup_regions (regs keyss : list (list str)) :
+  NoDup (concat regs) -> Forall2 (fun reg ks => NoDup ks /\ incl ks reg) regs keyss -> NoDup (concat keyss).
+Proof.
+  intros Hnd H. induction H as [|reg ks regs keyss [Hk Hi] Hrest IH]; cbn [concat] in *; [constructor|].
+  apply nodup_app_intro; [exact Hk | apply IH; eapply nodup_app_r; exact Hnd|].
+  intros x Hx Hin. apply (nodup_app_dis _ _ Hnd x (Hi x Hx)). exact (concat_incl _ _ Hrest x Hin).
+Qed.
+
+Lemma disjoint_of_nodup (l : list (list str)) : NoDup (concat l) -> disjoint_lists l.
+Proof.
+  induction l as [|ks r IH]; cbn [concat disjoint_lists]; intros H; [exact I|].
+  split; [apply nodup_app_dis; exact H | apply IH; eapply nodup_app_r; exact H].
+Qed.
+
+Lemma ev_alt_entry_keys t ks es : ev_alt E t ks es -> incl (map fst es) ks.
+Proof.
+  intros (ps & Hk & f0 & _ & Hm) k Hin. apply in_map_iff in Hin as (e & <- & He). rewrite <- Hk.
+  exact (alt_member_entry_keys _ ps es (Hm f0 (le_n _)) e He).
+Qed.
+
+Definition nonflat (fl : field) : bool := negb (is_flat fl).
+
+Lemma named_member ra opt fs vs entries (xprops : list (phead * tsty)) (xentries : list (str * json)) props flats :
+  Forall (nfield opt) fs ->
+  named_entries st sargs ra fs vs = Some entries ->
+  omap_list (prop_of is_alnum is_numeric R inl gargs ra opt) (filter nonflat (live fs)) = Ok props ->
+  omap_list (fun fl => flt (field_ty gargs opt fl)) (filter is_flat (live fs)) = Ok flats ->
+  NoDup (map (fun p => p_key (fst p)) xprops ++ map (Gen.field_key ra) (filter nonflat (live fs)) ++
+         concat (map (fun f => flat_keys R (f_ty f)) (filter is_flat (live fs)))) ->
+  Forall2 (fun p e => p_key (fst p) = fst e /\ p_optional (fst p) = false /\ ev (snd p) (snd e)) xprops xentries ->
+  ev (match xprops ++ props, flats with
+      | _, [] => TMerged (TObj OStruct (xprops ++ props))
+      | [], [x] => TMerged (TUnwrap x)
+      | [], _ => TMerged (TInter flats)
+      | _, _ => TMerged (TInter (TObj OStruct (xprops ++ props) :: flats))
+      end) (JObj (xentries ++ entries)).
+Proof.
+  intros Hpl He Hp Hfl Hnd Hx.
+  destruct (named_rel ra opt fs vs entries props flats Hpl He Hp Hfl) as (own & kes & P & Pe & A & B & C & N & D & K).
+  set (xkeys := map (fun p => p_key (fst p)) xprops) in *.
+  set (okeys := map (Gen.field_key ra) (filter nonflat (live fs))) in *.
+  rewrite <- K in Hnd.
+  assert (Hnd_xo : NoDup (xkeys ++ okeys)) by (rewrite app_assoc in Hnd; eapply nodup_app_l; exact Hnd).
+  assert (Hnd_f : NoDup (concat (map fst kes))) by (eapply nodup_app_r; eapply nodup_app_r; exact Hnd).
+  assert (Hown_empty : props = [] -> own = []).
+  { intros ->. destruct own as [|[k j] o]; [reflexivity|]. destruct (A k j (or_introl eq_refl)) as (p & t & [] & _). }
+  destruct flats as [|x flats'].
+  - (* nothing flattened *)
+    inversion D; subst kes. cbn [map concat] in P. rewrite app_nil_r in P.
+    assert (Hgoal : ev (TMerged (TObj OStruct (xprops ++ props))) (JObj (xentries ++ entries))); [|destruct (xprops ++ props); exact Hgoal].
+    apply evs_merged. apply (obj_of_facts xprops xentries props entries okeys); try assumption.
+    + intros k j Hin. apply A. eapply Permutation_in; [exact P | exact Hin].
+    + intros p t Hin Ho. destruct (B p t Hin Ho) as [j Hj]. exists j. eapply Permutation_in; [apply Permutation_sym; exact P | exact Hj].
+  - destruct (xprops ++ props) as [|p0 ps0] eqn:Hxp.
+    + (* only flattened structs *)
+      apply app_eq_nil in Hxp as [-> ->]. inversion Hx; subst xentries. cbn [app]. rewrite (Pe (Hown_empty eq_refl)).
+      destruct flats' as [|x2 flats''].
+      * inversion D as [|? ke ? kes' (Hal & Hev & _) D']; subst. inversion D'; subst. cbn [map concat snd]. rewrite app_nil_r.
+        apply evs_merged. unfold evs in Hev |- *. cbn [tsubst]. apply ev_unwrap. exact Hev.
+      * apply evs_merged. unfold evs. cbn [tsubst].
+        apply (ev_of_alt_inter E _ (concat (map fst kes)) (concat (map snd kes))). apply ev_alt_inter_n.
+        -- clear -D. induction D as [|y ke ys kes' (Hal & _) _ IH]; cbn [map]; constructor; [exact Hal | exact IH].
+        -- apply disjoint_of_nodup. exact Hnd_f.
+    + (* own properties (or a tag) and flattened structs *)
+      rewrite <- Hxp. apply evs_merged. unfold evs. cbn [tsubst map].
+      set (obj' := TObj OStruct (map (fun p => (fst p, tsubst sn sf (snd p))) (xprops ++ props))).
+      assert (Hobj : ev_alt E obj' (xkeys ++ okeys) (xentries ++ own)).
+      { assert (Hpk : pkeys (map (fun p => (fst p, tsubst sn sf (snd p))) (xprops ++ props)) = xkeys ++ okeys).
+        { unfold pkeys. rewrite map_map. cbn [fst]. rewrite map_app. fold xkeys. f_equal. exact C. }
+        rewrite <- Hpk. apply ev_alt_obj. pose proof (obj_of_facts xprops xentries props own okeys A B C Hnd_xo Hx) as Ho.
+        unfold evs in Ho. cbn [tsubst] in Ho. exact Ho. }
+      assert (Hall : ev_alt E (TInter (obj' :: map (tsubst sn sf) (x :: flats'))) (concat (map fst ((xkeys ++ okeys, xentries ++ own) :: kes)))
+                       (concat (map snd ((xkeys ++ okeys, xentries ++ own) :: kes)))).
+      { apply ev_alt_inter_n.
+        - constructor; [exact Hobj|]. clear -D. induction D as [|y ke ys kes' (Hal & _) _ IH]; cbn [map]; constructor; [exact Hal | exact IH].
+        - cbn [map fst]. apply disjoint_of_nodup. cbn [concat]. rewrite <- app_assoc. exact Hnd. }
+      cbn [map fst snd concat] in Hall.
+      apply (ev_of_alt_inter E _ ((xkeys ++ okeys) ++ concat (map fst kes)) (xentries ++ entries)).
+      eapply ev_alt_perm; [| |exact Hall].
+      * (* distinct keys *)
+        rewrite !map_app, <- app_assoc.
+        assert (Hreg : NoDup (concat ([xkeys; okeys] ++ map fst kes))) by (cbn [app concat]; exact Hnd).
+        assert (Hcm : map fst (concat (map snd kes)) = concat (map (fun ke => map fst (snd ke)) kes)).
+        { clear. induction kes as [|ke kes IH]; cbn [map concat]; [reflexivity|]. rewrite map_app, IH. reflexivity. }
+        rewrite Hcm.
+        change (map fst xentries ++ map fst own ++ concat (map (fun ke => map fst (snd ke)) kes))
+          with (concat ([map fst xentries; map fst own] ++ map (fun ke => map fst (snd ke)) kes)).
+        eapply nodup_regions; [exact Hreg|]. constructor; [|constructor].
+        -- assert (Hxe : map fst xentries = xkeys).
+           { unfold xkeys. clear -Hx. induction Hx as [|p e xp xe (Hk & _) _ IH]; cbn [map]; [reflexivity|]. rewrite IH, Hk. reflexivity. }
+           rewrite Hxe. split; [eapply nodup_app_l; exact Hnd_xo | apply incl_refl].
+        -- split; [apply N; eapply nodup_app_r; exact Hnd_xo|]. intros k Hk. apply in_map_iff in Hk as ([k0 j0] & <- & Hin0). cbn [fst].
+           destruct (A _ _ Hin0) as (p1 & t1 & Hp1 & Hkp1 & _).
+           assert (Hinp : In k0 (map (fun p => p_key (fst p)) props)).
+           { rewrite <- Hkp1. change (p_key p1) with ((fun q : phead * tsty => p_key (fst q)) (p1, t1)). apply in_map. exact Hp1. }
+           rewrite C in Hinp. exact Hinp.
+        -- clear -D. induction D as [|y ke ys kes' (Hal & _ & Hn) _ IH]; cbn [map]; constructor; [|exact IH].
+           split; [exact Hn | eapply ev_alt_entry_keys; exact Hal].
+      * rewrite <- app_assoc. apply Permutation_app_head. apply Permutation_sym. exact P.
+Qed.
+
 Lemma shape_member ra opt s vs j r :
   plain_shape opt s -> keys_distinct ra [] s ->
   shape_ser st sargs ra s vs = Some j ->
@@ -372,37 +641,40 @@ Proof.
     destruct fs as [|f fs'].
     + cbn in Hg. inversion Hg; subst. destruct vs; [|discriminate]. cbn in He. inversion He; subst. apply ev_recnever.
     + cbn [shape_gen] in Hg.
-      rewrite (filter_all (fun fl => negb (is_flat fl)) (live (f :: fs'))) in Hg
-        by (intros x Hx; rewrite (is_flat_plain opt x); [reflexivity | pose proof (live_plain opt _ Hpl) as Hl; rewrite Forall_forall in Hl; auto]).
-      rewrite (filter_none is_flat (live (f :: fs'))) in Hg
-        by (intros x Hx; apply (is_flat_plain opt); pose proof (live_plain opt _ Hpl) as Hl; rewrite Forall_forall in Hl; auto).
-      apply bind_ok in Hg as (props & Hp & Hg). cbn [omap_list bind] in Hg.
-      assert (Hr : r = (TMerged (TObj OStruct props), Some (TMerged (TObj OStruct props)))) by (destruct props; inversion Hg; reflexivity).
-      subst r. cbn [fst]. apply evs_merged.
-      apply (named_object ra opt (f :: fs') vs entries props [] [] Hpl He Hp); [exact Hkd | constructor].
+      apply bind_ok in Hg as (props & Hp & Hg). apply bind_ok in Hg as (flats & Hfl & Hg).
+      pose proof (named_member ra opt (f :: fs') vs entries [] [] props flats Hpl He Hp Hfl Hkd (Forall2_nil _)) as Hm.
+      cbn [app] in Hm. cbv zeta in Hg.
+      destruct props as [|p0 ps0]; destruct flats as [|x [|x2 fl'']]; inversion Hg; subst r; cbn [fst]; exact Hm.
 Qed.
 
 (* a named shape carrying a tag property (struct-level `tag`, struct variant of an internally tagged enum) *)
 Lemma tagged_named_member ra opt fs vs entries t nm r :
-  Forall (plain_field opt) fs -> NoDup (t :: map (Gen.field_key ra) (live fs)) ->
+  Forall (nfield opt) fs ->
+  NoDup (t :: map (Gen.field_key ra) (filter (fun fl => negb (is_flat fl)) (live fs)) ++
+         concat (map (fun f => flat_keys R (f_ty f)) (filter is_flat (live fs)))) ->
   named_entries st sargs ra fs vs = Some entries ->
   shape_gen is_alnum is_numeric R inl flt gargs ra opt (Some (t, nm)) (SNamed fs) = Ok r ->
   ev (fst r) (JObj ((t, JStr nm) :: entries)) /\ exists x, snd r = Some x.
 Proof.
   intros Hpl Hnd He Hg. cbn [shape_gen] in Hg.
-  assert (Hg' : bind (omap_list (prop_of is_alnum is_numeric R inl gargs ra opt) (live fs)) (fun props =>
-                  Ok (TMerged (TObj OStruct ((quoted_head t, TLit nm) :: props)), Some (TMerged (TObj OStruct ((quoted_head t, TLit nm) :: props))))) = Ok r).
-  { destruct fs as [|f fs']; [cbn in Hg |- *; exact Hg|].
-    rewrite (filter_all (fun fl => negb (is_flat fl)) (live (f :: fs'))) in Hg
-      by (intros x Hx; rewrite (is_flat_plain opt x); [reflexivity | pose proof (live_plain opt _ Hpl) as Hl; rewrite Forall_forall in Hl; auto]).
-    rewrite (filter_none is_flat (live (f :: fs'))) in Hg
-      by (intros x Hx; apply (is_flat_plain opt); pose proof (live_plain opt _ Hpl) as Hl; rewrite Forall_forall in Hl; auto).
-    exact Hg. }
-  clear Hg. apply bind_ok in Hg' as (props & Hp & Hg). inversion Hg; subst; clear Hg. cbn [fst snd].
-  split; [|eauto]. apply evs_merged.
-  apply (named_object ra opt fs vs entries props [(quoted_head t, TLit nm)] [(t, JStr nm)] Hpl He Hp).
-  - cbn [map fst p_key quoted_head app]. exact Hnd.
-  - constructor; [|constructor]. cbn. repeat split. apply evs_lit.
+  assert (Hg' : bind (omap_list (prop_of is_alnum is_numeric R inl gargs ra opt) (filter (fun fl => negb (is_flat fl)) (live fs))) (fun props =>
+          bind (omap_list (fun fl => flt (field_ty gargs opt fl)) (filter is_flat (live fs))) (fun flats =>
+          let props := (quoted_head t, TLit nm) :: props in
+          let obj := TObj OStruct props in
+          match props, flats with
+          | _, [] => Ok (TMerged obj, Some (TMerged obj))
+          | [], [x] => Ok (TMerged (TUnwrap x), Some (TMerged (TInter flats)))
+          | [], _ => Ok (TMerged (TInter flats), Some (TMerged (TInter flats)))
+          | _, _ => Ok (TMerged (TInter (obj :: flats)), Some (TMerged (TInter (obj :: flats))))
+          end)) = Ok r).
+  { destruct fs as [|f fs']; exact Hg. }
+  clear Hg. apply bind_ok in Hg' as (props & Hp & Hg). apply bind_ok in Hg as (flats & Hfl & Hg). cbv zeta in Hg.
+  assert (Hx : Forall2 (fun p e => p_key (fst p) = fst e /\ p_optional (fst p) = false /\ ev (snd p) (snd e))
+                 [(quoted_head t, TLit nm)] [(t, JStr nm)]).
+  { constructor; [|constructor]. cbn. repeat split. apply evs_lit. }
+  pose proof (named_member ra opt fs vs entries [(quoted_head t, TLit nm)] [(t, JStr nm)] props flats Hpl He Hp Hfl Hnd Hx) as Hm.
+  cbn [app] in Hm.
+  destruct flats as [|x [|x2 fl'']]; inversion Hg; subst r; cbn [fst snd]; (split; [exact Hm | eauto]).
 Qed.
 
 Definition plain_variant (tg : tagging) (v : variant) : Prop :=
@@ -529,7 +801,7 @@ Definition plain_def (d : typedef) : Prop :=
       plain_shape (c_optional_fields a) s /\
       match c_tag a with
       | None => keys_distinct (c_rename_all a) [] s
-      | Some t => exists fs, s = SNamed fs /\ NoDup (t :: map (Gen.field_key (c_rename_all a)) (live fs))
+      | Some t => exists fs, s = SNamed fs /\ keys_distinct (c_rename_all a) [t] (SNamed fs)
       end
   | DEnum a tg raf vs =>
       Forall (fun v => v_skip v = false -> plain_variant tg v /\ variant_keys_distinct tg (variant_rename_all raf v) (v_shape v)) vs
@@ -553,7 +825,7 @@ Proof.
   - destruct Hd as (Hsh & Htag). destruct v; try discriminate. cbn [def_ser] in Hs.
     destruct (c_tag a) as [t|] eqn:Ht.
     + destruct Htag as (fs0 & -> & Hnd). destruct (named_entries st sargs (c_rename_all a) fs0 fs) as [entries|] eqn:He; [|discriminate].
-      inversion Hs; subst. eapply tagged_named_member; eassumption.
+      inversion Hs; subst. cbn [keys_distinct app] in Hnd. eapply tagged_named_member; eassumption.
     + assert (Hs' : shape_ser st sargs (c_rename_all a) s fs = Some j) by (destruct s; exact Hs).
       eapply shape_member; eassumption.
   - destruct v; try discriminate. cbn [def_ser] in Hs.
@@ -572,33 +844,44 @@ Proof.
     eapply variant_member; eassumption.
 Qed.
 
-(* a struct with named fields (at least one) and no tag of its own: what serde writes is ONE exact object whose keys are the
-   field keys, and it inhabits the single alternative its declaration denotes *)
+Lemma nfield_noflat opt f : nfield opt f -> f_flatten f = false -> plain_field opt f.
+Proof. intros [H|H] Hf; [exact H|]. destruct H as (Hfl & _). congruence. Qed.
+
+(* a struct with named fields (at least one), no tag of its own and no flattened field: what serde writes is ONE exact object
+   whose keys are the field keys; it inhabits the single alternative its declaration denotes; the flattened form is the same type *)
 Lemma struct_alt a f0 fs v j r :
-  plain_def (DStruct a (SNamed (f0 :: fs))) -> c_tag a = None ->
+  plain_def (DStruct a (SNamed (f0 :: fs))) -> c_tag a = None -> Forall (fun f => f_flatten f = false) (f0 :: fs) ->
   def_ser is_upper st (DStruct a (SNamed (f0 :: fs))) sargs v = Some j ->
   def_body is_upper is_alnum is_numeric R inl flt (DStruct a (SNamed (f0 :: fs))) gargs = Ok r ->
-  exists es, j = JObj es /\ ev_alt E (tsubst sn sf (fst r)) (map (Gen.field_key (c_rename_all a)) (live (f0 :: fs))) es.
+  exists es, j = JObj es /\ ev_alt E (tsubst sn sf (fst r)) (map (Gen.field_key (c_rename_all a)) (live (f0 :: fs))) es /\
+             snd r = Some (fst r) /\ ev (fst r) (JObj es) /\ NoDup (map fst es).
 Proof.
-  intros (Hdty & Has & Hps & Hd) Htag Hs Hg. unfold def_body in Hg. cbn [attrs_of] in *. rewrite Hdty, Has, Htag in Hg.
+  intros (Hdty & Has & Hps & Hd) Htag Hnofl Hs Hg. unfold def_body in Hg. cbn [attrs_of] in *. rewrite Hdty, Has, Htag in Hg.
   destruct Hd as (Hsh & Hkd). rewrite Htag in Hkd. cbn [plain_shape keys_distinct app] in Hsh, Hkd.
+  assert (Hshp : Forall (plain_field (c_optional_fields a)) (f0 :: fs)).
+  { rewrite Forall_forall in *. intros x Hx. apply nfield_noflat; auto. }
+  assert (Hnf : filter (fun fl => negb (is_flat fl)) (live (f0 :: fs)) = live (f0 :: fs)).
+  { apply filter_all. intros x Hx. rewrite (is_flat_plain (c_optional_fields a) x); [reflexivity | pose proof (live_plain _ _ Hshp) as Hl; rewrite Forall_forall in Hl; auto]. }
+  assert (Hff : filter is_flat (live (f0 :: fs)) = []).
+  { apply filter_none. intros x Hx. apply (is_flat_plain (c_optional_fields a)). pose proof (live_plain _ _ Hshp) as Hl; rewrite Forall_forall in Hl; auto. }
   destruct v; try discriminate. cbn [def_ser] in Hs. rewrite Htag in Hs. cbn [shape_ser] in Hs.
   destruct (named_entries st sargs (c_rename_all a) (f0 :: fs) fs0) as [entries|] eqn:He; [|discriminate]. inversion Hs; subst j; clear Hs.
   exists entries. split; [reflexivity|].
-  cbn [shape_gen] in Hg.
-  rewrite (filter_all (fun fl => negb (is_flat fl)) (live (f0 :: fs))) in Hg
-    by (intros x Hx; rewrite (is_flat_plain (c_optional_fields a) x); [reflexivity | pose proof (live_plain _ _ Hsh) as Hl; rewrite Forall_forall in Hl; auto]).
-  rewrite (filter_none is_flat (live (f0 :: fs))) in Hg
-    by (intros x Hx; apply (is_flat_plain (c_optional_fields a)); pose proof (live_plain _ _ Hsh) as Hl; rewrite Forall_forall in Hl; auto).
-  apply bind_ok in Hg as (props & Hp & Hg). cbn [omap_list bind] in Hg.
+  cbn [shape_gen] in Hg. apply bind_ok in Hg as (props & Hp & Hg). apply bind_ok in Hg as (flats & Hfl & Hg). cbv zeta in Hg.
+  destruct (named_rel (c_rename_all a) (c_optional_fields a) (f0 :: fs) fs0 entries props flats Hsh He Hp Hfl) as (own & kes & P & _ & A & B & C & N & D & _).
+  rewrite Hff in Hfl. cbn in Hfl. inversion Hfl; subst flats. inversion D; subst kes. cbn [map concat] in P. rewrite app_nil_r in P.
+  rewrite Hff, Hnf in Hkd. cbn [map concat] in Hkd. rewrite app_nil_r in Hkd. rewrite Hnf in C, N.
   assert (Hr : r = (TMerged (TObj OStruct props), Some (TMerged (TObj OStruct props)))) by (destruct props; inversion Hg; reflexivity).
-  subst r. cbn [fst tsubst].
-  destruct (named_fields_rel (c_rename_all a) (c_optional_fields a) (f0 :: fs) fs0 entries props Hsh He Hp) as (_ & _ & C).
-  rewrite <- C. replace (map (fun p => p_key (fst p)) props) with (pkeys (map (fun p => (fst p, tsubst sn sf (snd p))) props))
-    by (unfold pkeys; rewrite map_map; reflexivity).
-  apply ev_alt_merged. apply ev_alt_obj.
-  pose proof (named_object (c_rename_all a) (c_optional_fields a) (f0 :: fs) fs0 entries props [] [] Hsh He Hp Hkd (Forall2_nil _)) as Hobj.
-  unfold evs in Hobj. cbn [app tsubst] in Hobj. exact Hobj.
+  subst r. cbn [fst snd tsubst].
+  assert (Hobj : ev (TObj OStruct props) (JObj entries)).
+  { apply (obj_of_facts [] [] props entries (map (Gen.field_key (c_rename_all a)) (live (f0 :: fs)))); try assumption; [| |constructor].
+    - intros k j Hin. apply A. eapply Permutation_in; [exact P | exact Hin].
+    - intros p t Hin Ho. destruct (B p t Hin Ho) as [j Hj]. exists j. eapply Permutation_in; [apply Permutation_sym; exact P | exact Hj]. }
+  split; [|split; [reflexivity|split; [apply evs_merged; exact Hobj|]]].
+  - rewrite <- C. replace (map (fun p => p_key (fst p)) props) with (pkeys (map (fun p => (fst p, tsubst sn sf (snd p))) props))
+      by (unfold pkeys; rewrite map_map; reflexivity).
+    apply ev_alt_merged. apply ev_alt_obj. unfold evs in Hobj. cbn [tsubst] in Hobj. exact Hobj.
+  - eapply Permutation_NoDup; [apply Permutation_map; apply Permutation_sym; exact P | apply N; exact Hkd].
 Qed.
 
 End Layer.
@@ -859,16 +1142,58 @@ Proof.
   split; [apply plain_fieldb_ok; exact H1 | destruct (f_optional f); [reflexivity | discriminate]].
 Qed.
 
+Lemma forallb_Forall' {A} (p : A -> bool) (P : A -> Prop) l : (forall x, p x = true -> P x) -> forallb p l = true -> Forall P l.
+Proof. intros Hp H. rewrite forallb_forall in H. apply Forall_forall. auto. Qed.
+
+Definition noflatb (fs : list field) : bool := forallb (fun f => negb (f_flatten f)) fs.
+Lemma noflatb_ok fs : noflatb fs = true -> Forall (fun f => f_flatten f = false) fs.
+Proof. intros H. eapply forallb_Forall'; [|exact H]. intros x Hx. apply negb_true_iff. exact Hx. Qed.
+
+Definition flat_structb (t : rty) : bool :=
+  match t with
+  | RNamed id _ =>
+      match lookup R id with
+      | Some (DStruct a (SNamed (f0 :: fs))) => is_none (c_tag a) && noflatb (f0 :: fs)
+      | _ => false
+      end
+  | _ => false
+  end.
+
+Lemma flat_structb_ok t : flat_structb t = true -> flat_struct R t.
+Proof.
+  destruct t as [| | | | | | | | |id args| |]; cbn [flat_structb flat_struct]; try discriminate.
+  destruct (lookup R id) as [[a [| |[|f0 fs]]|]|]; try discriminate. intros H. apply andb_true_iff in H as [H1 H2].
+  split; [apply is_none_eq; exact H1 | apply noflatb_ok; exact H2].
+Qed.
+
+Definition flat_fieldb (n : nat) (f : field) : bool :=
+  f_flatten f && is_none (f_type f) && rty_eqb (f_serde_ty f) (f_ty f) && pmono R n (f_ty f) && Nat.eqb n 0 &&
+  match f_optional f with NotOptional => true | _ => false end && negb (f_skip_none f) && flat_structb (f_ty f).
+
+Lemma flat_fieldb_ok n f : flat_fieldb n f = true -> flat_field R n f.
+Proof.
+  unfold flat_fieldb, flat_field. intros H.
+  repeat match type of H with (_ && _) = true => let H' := fresh "H" in apply andb_true_iff in H as [H H'] end.
+  repeat split; try assumption.
+  - apply is_none_eq; assumption.
+  - apply rty_eqb_eq; assumption.
+  - apply Nat.eqb_eq; assumption.
+  - destruct (f_optional f); [reflexivity | discriminate].
+  - apply negb_true_iff; assumption.
+  - apply flat_structb_ok; assumption.
+Qed.
+
+Definition nfieldb (n : nat) (opt : optional) (f : field) : bool := plain_fieldb n opt f || flat_fieldb n f.
+Lemma nfieldb_ok n opt f : nfieldb n opt f = true -> nfield R n opt f.
+Proof. unfold nfieldb, nfield. intros H. apply orb_true_iff in H as [H|H]; [left; apply plain_fieldb_ok | right; apply flat_fieldb_ok]; exact H. Qed.
+
 Definition plain_shapeb (n : nat) (opt : optional) (s : shape) : bool :=
   match s with
   | SUnit => true
   | STuple [f] => plain_tfieldb n f && negb (f_skip f)
   | STuple fs => forallb (plain_tfieldb n) fs
-  | SNamed fs => forallb (plain_fieldb n opt) fs
+  | SNamed fs => forallb (nfieldb n opt) fs
   end.
-
-Lemma forallb_Forall' {A} (p : A -> bool) (P : A -> Prop) l : (forall x, p x = true -> P x) -> forallb p l = true -> Forall P l.
-Proof. intros Hp H. rewrite forallb_forall in H. apply Forall_forall. auto. Qed.
 
 Lemma plain_shapeb_ok n opt s : plain_shapeb n opt s = true -> plain_shape R n opt s.
 Proof.
@@ -878,16 +1203,17 @@ Proof.
     + constructor.
     + apply andb_true_iff in H as [H1 H2]. split; [apply plain_tfieldb_ok; exact H1 | apply negb_true_iff; exact H2].
     + eapply forallb_Forall'; [apply plain_tfieldb_ok | exact H].
-  - eapply forallb_Forall'; [apply plain_fieldb_ok | exact H].
+  - eapply forallb_Forall'; [apply nfieldb_ok | exact H].
 Qed.
 
 Definition keys_distinctb (ra : option rule) (extra : list str) (s : shape) : bool :=
   match s with
-  | SNamed fs => nodupb (extra ++ map (Gen.field_key ra) (live fs))
+  | SNamed fs => nodupb (extra ++ map (Gen.field_key ra) (filter (fun fl => negb (is_flat fl)) (live fs)) ++
+                         concat (map (fun f => flat_keys R (f_ty f)) (filter is_flat (live fs))))
   | _ => true
   end.
 
-Lemma keys_distinctb_ok ra extra s : keys_distinctb ra extra s = true -> keys_distinct ra extra s.
+Lemma keys_distinctb_ok ra extra s : keys_distinctb ra extra s = true -> keys_distinct R ra extra s.
 Proof. destruct s; cbn; intros H; try exact I. apply nodupb_NoDup. exact H. Qed.
 
 Definition struct_contentb (tg : str) (t : rty) : bool :=
@@ -895,7 +1221,7 @@ Definition struct_contentb (tg : str) (t : rty) : bool :=
   | RNamed id _ =>
       match lookup R id with
       | Some (DStruct a (SNamed (f0 :: fs))) =>
-          is_none (c_tag a) && negb (existsb (str_eqb tg) (map (Gen.field_key (c_rename_all a)) (live (f0 :: fs))))
+          is_none (c_tag a) && negb (existsb (str_eqb tg) (map (Gen.field_key (c_rename_all a)) (live (f0 :: fs)))) && noflatb (f0 :: fs)
       | _ => false
       end
   | _ => false
@@ -904,8 +1230,8 @@ Definition struct_contentb (tg : str) (t : rty) : bool :=
 Lemma struct_contentb_ok tg t : struct_contentb tg t = true -> struct_content R tg t.
 Proof.
   destruct t as [| | | | | | | | |id args| |]; cbn [struct_contentb struct_content]; try discriminate.
-  destruct (lookup R id) as [[a [| |[|f0 fs]]|]|]; try discriminate. intros H. apply andb_true_iff in H as [H1 H2].
-  split; [apply is_none_eq; exact H1|]. intros Hin. apply negb_true_iff in H2.
+  destruct (lookup R id) as [[a [| |[|f0 fs]]|]|]; try discriminate. intros H. apply andb_true_iff in H as [H H3]. apply andb_true_iff in H as [H1 H2].
+  split; [apply is_none_eq; exact H1|]. split; [|apply noflatb_ok; exact H3]. intros Hin. apply negb_true_iff in H2.
   rewrite (existsb_in (str_eqb tg) tg _ Hin (str_eqb_refl' tg)) in H2. discriminate.
 Qed.
 
@@ -939,7 +1265,7 @@ Definition variant_keys_distinctb (tg : tagging) (ra : option rule) (s : shape) 
   | _ => keys_distinctb ra [] s
   end.
 
-Lemma variant_keys_distinctb_ok tg ra s : variant_keys_distinctb tg ra s = true -> variant_keys_distinct tg ra s.
+Lemma variant_keys_distinctb_ok tg ra s : variant_keys_distinctb tg ra s = true -> variant_keys_distinct R tg ra s.
 Proof.
   destruct tg; cbn [variant_keys_distinctb variant_keys_distinct]; intros H; try (apply keys_distinctb_ok; exact H).
   apply andb_true_iff in H as [Hn H]. split; [|apply keys_distinctb_ok; exact H].
@@ -957,7 +1283,7 @@ Definition plain_defb (d : typedef) : bool :=
       plain_shapeb n (c_optional_fields a) s &&
       match c_tag a with
       | None => keys_distinctb (c_rename_all a) [] s
-      | Some t => match s with SNamed fs => nodupb (t :: map (Gen.field_key (c_rename_all a)) (live fs)) | _ => false end
+      | Some t => match s with SNamed fs => keys_distinctb (c_rename_all a) [t] (SNamed fs) | _ => false end
       end
   | DEnum a tg raf vs =>
       forallb (fun v => v_skip v || (plain_variantb n tg v && variant_keys_distinctb tg (variant_rename_all raf v) (v_shape v))) vs
@@ -974,7 +1300,7 @@ Proof.
   - apply andb_true_iff in Hd as [Hsh Htag].
     split; [apply plain_shapeb_ok; exact Hsh|].
     destruct (c_tag a) as [t|]; [|apply keys_distinctb_ok; exact Htag].
-    destruct s as [|fs|fs]; try discriminate. exists fs. split; [reflexivity | apply nodupb_NoDup; exact Htag].
+    destruct s as [|fs|fs]; try discriminate. exists fs. split; [reflexivity | apply keys_distinctb_ok; exact Htag].
   - eapply forallb_Forall'; [|exact Hd]. intros v Hv Hskip. cbn beta in Hv. rewrite Hskip in Hv. cbn [orb] in Hv.
     apply andb_true_iff in Hv as [H1 H2]. split; [apply plain_variantb_ok; exact H1 | apply variant_keys_distinctb_ok; exact H2].
 Qed.
@@ -1174,15 +1500,23 @@ Lemma def_layer : forall m,
      ev (tsubst (bind_params ps l) (bind_params ps l) (fst r)) j) /\
   (forall g d id args v j r, lookup R id = Some d -> length args = nparams d -> forallb mono_ty args = true ->
      sdef is_upper R m d args v = Some j -> gen g d args = Ok r -> ev (fst r) j) /\
-  (* (C) a struct with named fields and no tag of its own is written as one exact object over its field keys *)
+  (* (C) a struct with named fields, no tag of its own and no flattened field is written as one exact object over its field keys *)
   (forall g id args v j r l ps a f0 fs, lookup R id = Some (DStruct a (SNamed (f0 :: fs))) -> c_tag a = None ->
+     Forall (fun f => f_flatten f = false) (f0 :: fs) ->
      length args = length (c_params a) -> forallb mono_ty args = true ->
      sdef is_upper R m (DStruct a (SNamed (f0 :: fs))) args v = Some j -> gen g (DStruct a (SNamed (f0 :: fs))) (dummies a) = Ok r ->
      omap_list (name_of R) args = Ok l -> map fst ps = map fst (c_params a) ->
      exists es, j = JObj es /\
-       ev_alt env_of (tsubst (bind_params ps l) (bind_params ps l) (fst r)) (map (Gen.field_key (c_rename_all a)) (live (f0 :: fs))) es).
+       ev_alt env_of (tsubst (bind_params ps l) (bind_params ps l) (fst r)) (map (Gen.field_key (c_rename_all a)) (live (f0 :: fs))) es) /\
+  (* (D) ... and so is its flattened form, generated at the arguments *)
+  (forall g id args v j r a f0 fs, lookup R id = Some (DStruct a (SNamed (f0 :: fs))) -> c_tag a = None ->
+     Forall (fun f => f_flatten f = false) (f0 :: fs) ->
+     length args = length (c_params a) -> forallb mono_ty args = true ->
+     sdef is_upper R m (DStruct a (SNamed (f0 :: fs))) args v = Some j -> gen g (DStruct a (SNamed (f0 :: fs))) args = Ok r ->
+     exists es, j = JObj es /\ snd r = Some (fst r) /\
+       ev_alt env_of (fst r) (map (Gen.field_key (c_rename_all a)) (live (f0 :: fs))) es /\ ev (fst r) (JObj es) /\ NoDup (map fst es)).
 Proof.
-  induction m as [|m (IHA & IHB & IHC)]; [repeat split; intros; cbn in *; discriminate|].
+  induction m as [|m (IHA & IHB & IHC & IHD)]; [repeat split; intros; cbn in *; discriminate|].
   (* references to definitions: through the declaration of the environment *)
   assert (Href : forall id2 d2 args2 l2 v2 j2, lookup R id2 = Some d2 -> length args2 = length (c_params (attrs_of d2)) ->
             forallb mono_ty args2 = true -> sdef is_upper R m d2 args2 v2 = Some j2 -> omap_list (name_of R) args2 = Ok l2 ->
@@ -1205,21 +1539,35 @@ Proof.
     cbn [struct_content] in Hct. unfold Sem_derive_proofs.mono_ty in Hm0. cbn [pmono] in Hm0. cbn [Serde.ser_ty] in Hs0. cbn [Gen.name_of] in Ha0.
     destruct (lookup R id2) as [d2|] eqn:Hlk2; [|contradiction].
     destruct d2 as [a2 s2|]; [|contradiction]. destruct s2 as [| |fs2]; try contradiction. destruct fs2 as [|f0 fs2]; [contradiction|].
-    destruct Hct as [Htag2 Hnin]. apply andb_true_iff in Hm0 as [Hlen2 Hargs2]. apply Nat.eqb_eq in Hlen2.
+    destruct Hct as (Htag2 & Hnin & Hnofl). apply andb_true_iff in Hm0 as [Hlen2 Hargs2]. apply Nat.eqb_eq in Hlen2.
     apply bind_ok in Ha0 as (l2 & Hl2 & Ha0). inversion Ha0; subst a0; clear Ha0.
     destruct (env_facts _ _ Hlk2) as (_ & _ & dc & Hdl & Hdc).
     destruct (plain_decl _ dc Hdc) as (r2 & Hr2 & _ & Hps2 & Hbody).
-    destruct (IHC gf id2 args2 v0 (JObj l0) r2 l2 (d_params dc) a2 f0 fs2 Hlk2 Htag2 Hlen2 Hargs2 Hs0 Hr2 Hl2 Hps2) as (es & Hes & Halt0).
+    destruct (IHC gf id2 args2 v0 (JObj l0) r2 l2 (d_params dc) a2 f0 fs2 Hlk2 Htag2 Hnofl Hlen2 Hargs2 Hs0 Hr2 Hl2 Hps2) as (es & Hes & Halt0).
     inversion Hes; subst es. exists (map (Gen.field_key (c_rename_all a2)) (live (f0 :: fs2))). split; [|exact Hnin].
     eapply ev_alt_ref; [exact Hdl|]. rewrite Hbody. exact Halt0. }
   assert (Hsc_subst : forall tg t0 args0, struct_content R tg t0 -> struct_content R tg (rsubst args0 t0)).
   { intros tg t0 args0 H0. destruct t0; try contradiction. exact H0. }
-  split; [|split].
+  (* a struct flattened into a definition without parameters *)
+  assert (Hfl_closed : forall g' t0 v0 l0 a0, flat_struct R t0 -> mono_ty t0 = true ->
+            ser_ty R (sdef is_upper R m) t0 v0 = Some (JObj l0) -> lib_flat R (gen g') t0 = Ok a0 ->
+            ev_alt env_of a0 (flat_keys R t0) l0 /\ ev a0 (JObj l0) /\ NoDup (map fst l0)).
+  { intros g' t0 v0 l0 a0 Hct Hm0 Hs0 Ha0. destruct t0 as [| | | | | | | | |id2 args2| |]; try contradiction.
+    cbn [flat_struct flat_keys] in Hct |- *. unfold Sem_derive_proofs.mono_ty in Hm0. cbn [pmono] in Hm0. cbn [Serde.ser_ty] in Hs0. cbn [Gen.lib_flat] in Ha0.
+    destruct (lookup R id2) as [d2|] eqn:Hlk2; [|contradiction].
+    destruct d2 as [a2 s2|]; [|contradiction]. destruct s2 as [| |fs2]; try contradiction. destruct fs2 as [|f0 fs2]; [contradiction|].
+    destruct Hct as (Htag2 & Hnofl). apply andb_true_iff in Hm0 as [Hlen2 Hargs2]. apply Nat.eqb_eq in Hlen2.
+    apply bind_ok in Ha0 as (r2 & Hr2 & Ha0).
+    destruct (IHD g' id2 args2 v0 (JObj l0) r2 a2 f0 fs2 Hlk2 Htag2 Hnofl Hlen2 Hargs2 Hs0 Hr2) as (es & Hes & Hsnd & Hal & Hev & Hnd).
+    inversion Hes; subst es. rewrite Hsnd in Ha0. inversion Ha0; subst a0. repeat split; assumption. }
+  assert (Hrs0 : forall t0, pmono R 0 t0 = true -> rsubst [] t0 = t0).
+  { intros t0 H0. apply rsubst_nil. apply (pmono_src R 0). exact H0. }
+  split; [|split; [|split]].
   - intros g d id args v j r l ps Hlk Hlen Hargs Hs Hr Hl Hps.
     destruct (env_facts _ _ Hlk) as (Hpd & Hnp & _).
     destruct g as [|g']; [cbn in Hr; discriminate|]. cbn [Gen.gen] in Hr. cbn [sdef] in Hs.
     eapply (def_member is_upper is_alnum is_numeric R env_of (ser_ty R (sdef is_upper R m)) (lib_inline R (gen g')) (lib_flat R (gen g'))
-              (nparams d) args (dummies (attrs_of d)) (bind_params ps l) (bind_params ps l)); [|exact Hopt| |exact Hpd | exact Hs | exact Hr].
+              (nparams d) args (dummies (attrs_of d)) (bind_params ps l) (bind_params ps l)); [|exact Hopt| | |exact Hpd | exact Hs | exact Hr].
     + intros b t0 v0 j0 a0 Hpm Hin0 Hs0 Ha0. unfold evs. unfold tytext in Ha0.
       assert (Hmono : mono_ty (rsubst args t0) = true).
       { apply (pmono_subst R (nparams d) args); [apply Forall_forall; rewrite forallb_forall in Hargs; exact Hargs | exact Hlen | exact Hpm]. }
@@ -1237,12 +1585,18 @@ Proof.
       { apply (pmono_subst R (nparams d) args); [apply Forall_forall; rewrite forallb_forall in Hargs; exact Hargs | exact Hlen | exact Hpm]. }
       eapply (Href_alt tg (rsubst args t0) v0 l0); [apply Hsc_subst; exact Hct | exact Hmono | exact Hs0|].
       exact (name_of_tsubst R (nparams d) (map fst (c_params (attrs_of d))) args l ps Hnp Hps (map_length _ _) Hl Hlen t0 a0 Hpm Ha0).
+    + (* flattened structs: the definition has no parameters *)
+      intros t0 v0 l0 a0 Hct Hpm Hn0 Hs0 Ha0. unfold nparams in Hn0, Hlen, Hpm. rewrite Hn0 in Hlen, Hpm.
+      destruct args; [|discriminate]. assert (Hc : c_params (attrs_of d) = []) by (destruct (c_params (attrs_of d)); [reflexivity | discriminate]).
+      unfold dummies in Ha0. rewrite Hc in Ha0, Hps. cbn [map] in Ha0, Hps. destruct ps; [|discriminate]. cbn in Hl. inversion Hl; subst l.
+      cbn [bind_params]. rewrite tsubst_none. unfold evs. rewrite tsubst_none. rewrite (Hrs0 _ Hpm) in Hs0, Ha0.
+      eapply Hfl_closed; [exact Hct | exact Hpm | exact Hs0 | exact Ha0].
   - intros g d id args v j r Hlk Hlen Hargs Hs Hr.
     destruct (env_facts _ _ Hlk) as (Hpd & Hnp & _).
     destruct g as [|g']; [cbn in Hr; discriminate|]. cbn [Gen.gen] in Hr. cbn [sdef] in Hs.
     rewrite <- (tsubst_none (fst r)).
     eapply (def_member is_upper is_alnum is_numeric R env_of (ser_ty R (sdef is_upper R m)) (lib_inline R (gen g')) (lib_flat R (gen g'))
-              (nparams d) args args (fun _ => None) (fun _ => None)); [|exact Hopt| |exact Hpd | exact Hs | exact Hr].
+              (nparams d) args args (fun _ => None) (fun _ => None)); [|exact Hopt| | |exact Hpd | exact Hs | exact Hr].
     + intros b t0 v0 j0 a0 Hpm Hin0 Hs0 Ha0. unfold evs. rewrite tsubst_none. unfold tytext in Ha0.
       assert (Hmono : mono_ty (rsubst args t0) = true).
       { apply (pmono_subst R (nparams d) args); [apply Forall_forall; rewrite forallb_forall in Hargs; exact Hargs | exact Hlen | exact Hpm]. }
@@ -1251,22 +1605,46 @@ Proof.
       assert (Hmono : mono_ty (rsubst args t0) = true).
       { apply (pmono_subst R (nparams d) args); [apply Forall_forall; rewrite forallb_forall in Hargs; exact Hargs | exact Hlen | exact Hpm]. }
       eapply (Href_alt tg (rsubst args t0) v0 l0); [apply Hsc_subst; exact Hct | exact Hmono | exact Hs0 | exact Ha0].
-  - intros g id args v j r l ps a f0 fs Hlk Htag Hlen Hargs Hs Hr Hl Hps.
+    + intros t0 v0 l0 a0 Hct Hpm Hn0 Hs0 Ha0. unfold nparams in Hn0, Hlen, Hpm. rewrite Hn0 in Hlen, Hpm.
+      destruct args; [|discriminate]. rewrite tsubst_none. unfold evs. rewrite tsubst_none. rewrite (Hrs0 _ Hpm) in Hs0, Ha0.
+      eapply Hfl_closed; [exact Hct | exact Hpm | exact Hs0 | exact Ha0].
+  - intros g id args v j r l ps a f0 fs Hlk Htag Hnofl Hlen Hargs Hs Hr Hl Hps.
     destruct (env_facts _ _ Hlk) as (Hpd & Hnp & _). cbn [attrs_of] in *.
     destruct g as [|g']; [cbn in Hr; discriminate|]. cbn [Gen.gen] in Hr. cbn [sdef] in Hs.
-    eapply (struct_alt is_upper is_alnum is_numeric R env_of (ser_ty R (sdef is_upper R m)) (lib_inline R (gen g')) (lib_flat R (gen g'))
-              (length (c_params a)) args (dummies a) (bind_params ps l) (bind_params ps l)); [|exact Hopt|exact Hpd | exact Htag | exact Hs | exact Hr].
-    intros b t0 v0 j0 a0 Hpm Hin0 Hs0 Ha0. unfold evs. unfold tytext in Ha0.
-    assert (Hmono : mono_ty (rsubst args t0) = true).
-    { apply (pmono_subst R (length (c_params a)) args); [apply Forall_forall; rewrite forallb_forall in Hargs; exact Hargs | exact Hlen | exact Hpm]. }
-    destruct b.
-    + specialize (Hin0 eq_refl). rewrite Hin0 in Hlen.
+    destruct (struct_alt is_upper is_alnum is_numeric R env_of (ser_ty R (sdef is_upper R m)) (lib_inline R (gen g')) (lib_flat R (gen g'))
+              (length (c_params a)) args (dummies a) (bind_params ps l) (bind_params ps l)) with (a := a) (f0 := f0) (fs := fs) (v := v) (j := j) (r := r)
+      as (es & Hes & Hal & _); [|exact Hopt| |exact Hpd | exact Htag | exact Hnofl | exact Hs | exact Hr | exists es; split; [exact Hes | exact Hal]].
+    + intros b t0 v0 j0 a0 Hpm Hin0 Hs0 Ha0. unfold evs. unfold tytext in Ha0.
+      assert (Hmono : mono_ty (rsubst args t0) = true).
+      { apply (pmono_subst R (length (c_params a)) args); [apply Forall_forall; rewrite forallb_forall in Hargs; exact Hargs | exact Hlen | exact Hpm]. }
+      destruct b.
+      * specialize (Hin0 eq_refl). rewrite Hin0 in Hlen.
+        destruct args; [|discriminate]. assert (Hc : c_params a = []) by (destruct (c_params a); [reflexivity | discriminate]).
+        unfold dummies in Ha0. rewrite Hc in Ha0, Hps. cbn [map] in Ha0, Hps. destruct ps; [|discriminate]. cbn in Hl. inversion Hl; subst l.
+        cbn [bind_params]. rewrite tsubst_none. eapply Hinl; [exact Hmono | exact Hs0 | exact Ha0].
+      * change (dummies a) with (dummies (attrs_of (DStruct a (SNamed (f0 :: fs))))) in Ha0. rewrite dummies_eq in Ha0. cbn [attrs_of] in Ha0.
+        eapply lib_ev; [exact Href | exact Hmono | exact Hs0|].
+        exact (name_of_tsubst R (length (c_params a)) (map fst (c_params a)) args l ps Hnp Hps (map_length _ _) Hl Hlen t0 a0 Hpm Ha0).
+    + (* no flattened field: never asked *)
+      intros t0 v0 l0 a0 Hct Hpm Hn0 Hs0 Ha0. rewrite Hn0 in Hlen, Hpm.
       destruct args; [|discriminate]. assert (Hc : c_params a = []) by (destruct (c_params a); [reflexivity | discriminate]).
       unfold dummies in Ha0. rewrite Hc in Ha0, Hps. cbn [map] in Ha0, Hps. destruct ps; [|discriminate]. cbn in Hl. inversion Hl; subst l.
-      cbn [bind_params]. rewrite tsubst_none. eapply Hinl; [exact Hmono | exact Hs0 | exact Ha0].
-    + change (dummies a) with (dummies (attrs_of (DStruct a (SNamed (f0 :: fs))))) in Ha0. rewrite dummies_eq in Ha0. cbn [attrs_of] in Ha0.
-      eapply lib_ev; [exact Href | exact Hmono | exact Hs0|].
-      exact (name_of_tsubst R (length (c_params a)) (map fst (c_params a)) args l ps Hnp Hps (map_length _ _) Hl Hlen t0 a0 Hpm Ha0).
+      cbn [bind_params]. rewrite tsubst_none. unfold evs. rewrite tsubst_none. rewrite (Hrs0 _ Hpm) in Hs0, Ha0.
+      eapply Hfl_closed; [exact Hct | exact Hpm | exact Hs0 | exact Ha0].
+  - intros g id args v j r a f0 fs Hlk Htag Hnofl Hlen Hargs Hs Hr.
+    destruct (env_facts _ _ Hlk) as (Hpd & Hnp & _). cbn [attrs_of] in *.
+    destruct g as [|g']; [cbn in Hr; discriminate|]. cbn [Gen.gen] in Hr. cbn [sdef] in Hs.
+    destruct (struct_alt is_upper is_alnum is_numeric R env_of (ser_ty R (sdef is_upper R m)) (lib_inline R (gen g')) (lib_flat R (gen g'))
+              (length (c_params a)) args args (fun _ => None) (fun _ => None)) with (a := a) (f0 := f0) (fs := fs) (v := v) (j := j) (r := r)
+      as (es & Hes & Hal & Hsnd & Hev & Hnd); [|exact Hopt| |exact Hpd | exact Htag | exact Hnofl | exact Hs | exact Hr|].
+    + intros b t0 v0 j0 a0 Hpm Hin0 Hs0 Ha0. unfold evs. rewrite tsubst_none. unfold tytext in Ha0.
+      assert (Hmono : mono_ty (rsubst args t0) = true).
+      { apply (pmono_subst R (length (c_params a)) args); [apply Forall_forall; rewrite forallb_forall in Hargs; exact Hargs | exact Hlen | exact Hpm]. }
+      destruct b; [eapply Hinl | eapply lib_ev; [exact Href|..]]; eassumption.
+    + intros t0 v0 l0 a0 Hct Hpm Hn0 Hs0 Ha0. rewrite Hn0 in Hlen, Hpm.
+      destruct args; [|discriminate]. rewrite tsubst_none. unfold evs. rewrite tsubst_none. rewrite (Hrs0 _ Hpm) in Hs0, Ha0.
+      eapply Hfl_closed; [exact Hct | exact Hpm | exact Hs0 | exact Ha0].
+    + exists es. rewrite tsubst_none in Hal. unfold evs in Hev. rewrite tsubst_none in Hev. repeat split; assumption.
 Qed.
 
 Theorem derive_layer_member : forall m t v j a,
